@@ -114,6 +114,30 @@ func runWatchScenario(t *testing.T, sc watchScen, hello []byte) (evs []Ev, crash
 		if err == nil {
 			// I/O probe: the backend side must be able to write through the Conn and have the client see it
 			ok := true
+			if watchCH2 != nil && conn.ECHAccepted() {
+				// a later phase of the same connection must be just as free of the (ended) context: the backend asks for
+				// a retry, the Read of the second ClientHello blocks for a while, then that hello arrives
+				if _, werr := conn.Write(hrrRecord(true, 0)); werr != nil {
+					ok = false
+				}
+				type rr struct {
+					n   int
+					err error
+				}
+				rc := make(chan rr, 1)
+				go func() {
+					buf := make([]byte, 70000)
+					n, err := conn.Read(buf)
+					rc <- rr{n, err}
+				}()
+				synctest.Wait()
+				time.Sleep(3 * time.Millisecond)
+				synctest.Wait()
+				go cl.Write(watchCH2)
+				if r := <-rc; r.err != nil || r.n == 0 {
+					ok = false
+				}
+			}
 			if _, werr := conn.Write([]byte{23, 3, 3, 0, 1, 0x7f}); werr != nil {
 				ok = false
 			}
@@ -130,6 +154,7 @@ func runWatchScenario(t *testing.T, sc watchScen, hello []byte) (evs []Ev, crash
 }
 
 var watchKeyring *keyring
+var watchCH2 []byte // the retried hello, sealed with the same sender right after the first one
 
 func TestWatchScenarios(t *testing.T) {
 	in, out := os.Getenv("VH_IN"), os.Getenv("VH_OUT")
@@ -141,6 +166,7 @@ func TestWatchScenarios(t *testing.T) {
 	watchKeyring = newKeyring(seed())
 	s := newSealer(watchKeyring)
 	hello := handshakeRecord(s.helloBody(sealedHello(stdOuter, stdInner, aEnc{To: "k1", Id: "e1"}, 7, "s1", true), outerRandom, encOpts{padLen: 9}, "", -1))
+	watchCH2 = handshakeRecord(s.helloBody(sealedHello(stdOuter, stdInner, aEnc{To: "empty", Id: "e0"}, 7, "s1", true), outerRandom, encOpts{padLen: 9}, "", -1))
 	scens := readCases[watchScen](t, in)
 	w := newNDWriter(t, out)
 	defer w.Close()
